@@ -358,23 +358,40 @@ func (r *run) bounds() (n, lo, hi int) {
 	return
 }
 
+// fullBattery (thorough tier): every variant; otherwise the essential ones
+var fullBattery bool
+
 func (r *run) endsBattery(probe []int) {
 	n, lo, hi := r.bounds()
-	for _, ab := range [][2]int{{0, n + 2}, {-n - 2, n + 2}, {n - 1, n + 1}, {0, 0}, {n - 2, n}} {
+	// reverse and forward traversals that run past the front / the end
+	pairs := [][2]int{{0, n + 2}, {-n - 2, n + 2}, {n - 1, n + 1}}
+	if fullBattery {
+		pairs = append(pairs, [2]int{0, 0}, [2]int{n - 2, n})
+	}
+	for _, ab := range pairs {
 		r.do(&op{K: "RevRange", A: ab[0], B: ab[1]}, false)
 		r.do(&op{K: "Range", A: ab[0], B: ab[1]}, false)
 	}
-	r.do(&op{K: "RevRangeByScore", A: Inf, B: -Inf}, false)
-	r.do(&op{K: "RangeByScore", A: -Inf, B: Inf}, false)
+	r.do(&op{K: "RevRange", A: 0, B: 0}, false)
 	for e := 0; e < 4; e++ {
 		em, ex := e&1 == 1, e&2 == 2
 		r.do(&op{K: "RevRangeByScoreWithOpt", A: Inf, B: -Inf, ExMin: em, ExMax: ex}, false)
-		r.do(&op{K: "RevRangeByScoreWithOpt", A: lo, B: -Inf, ExMin: em, ExMax: ex}, false)
-		r.do(&op{K: "RangeByScoreWithOpt", A: hi, B: Inf, ExMin: em, ExMax: ex}, false)
-		r.do(&op{K: "CountWithOpt", A: hi, B: Inf, ExMin: em, ExMax: ex}, false)
+		if fullBattery {
+			r.do(&op{K: "RevRangeByScoreWithOpt", A: lo, B: -Inf, ExMin: em, ExMax: ex}, false)
+			r.do(&op{K: "RangeByScoreWithOpt", A: hi, B: Inf, ExMin: em, ExMax: ex}, false)
+			r.do(&op{K: "CountWithOpt", A: hi, B: Inf, ExMin: em, ExMax: ex}, false)
+		}
 	}
+	r.do(&op{K: "RevRangeByScore", A: lo, B: -Inf}, false)
+	r.do(&op{K: "RangeByScore", A: hi, B: Inf}, false)
 	// a stale tail with a higher score would make IsInRange accept these empty ranges
-	for d := 1; d <= 3; d++ {
+	maxd := 1
+	if fullBattery {
+		maxd = 3
+		r.do(&op{K: "RevRangeByScore", A: Inf, B: -Inf}, false)
+		r.do(&op{K: "RangeByScore", A: -Inf, B: Inf}, false)
+	}
+	for d := 1; d <= maxd; d++ {
 		r.do(&op{K: "RangeByScore", A: hi + d, B: Inf}, false)
 		r.do(&op{K: "Count", A: hi + d, B: hi + 4}, false)
 		r.do(&op{K: "RevRangeByScore", A: Inf, B: hi + d}, false)
@@ -382,9 +399,10 @@ func (r *run) endsBattery(probe []int) {
 	}
 	for _, m := range probe {
 		r.do(&op{K: "RevRank", B: m}, false)
-		r.do(&op{K: "Rank", B: m}, false)
+		if fullBattery {
+			r.do(&op{K: "Rank", B: m}, false)
+		}
 	}
-	r.do(&op{K: "Len"}, false)
 }
 
 func (r *run) endsBatteryLarge(probe []int) {
@@ -646,33 +664,39 @@ func main() {
 		}
 		alpha = append(alpha, &op{K: "RemoveRangeByRank", A: 0, B: 0}, &op{K: "RemoveRangeByRank", A: -1, B: -1}, &op{K: "RemoveRangeByRank", A: 1, B: 5},
 			&op{K: "RemoveRangeByScore", A: 0, B: 1}, &op{K: "RemoveRangeByScoreWithOpt", A: -1, B: 0, ExMin: true}, &op{K: "Clear"})
-		runWord := func(word []int) {
+		// every: ends battery after every removal-type letter; otherwise only after the last letter (the
+		// enumeration is prefix-closed, so the battery after an earlier letter is the one of the shorter word)
+		runWord := func(word []int, every bool) {
 			run := newRun()
-			for _, ai := range word {
+			for j, ai := range word {
 				c := cloneOp(alpha[ai])
 				if c.K == "AddB" || c.K == "IncrBy" {
 					c.Hs = g.hs(1)
 				}
-				run.doM(c, true, g.members, false)
+				if every || j == len(word)-1 {
+					run.doM(c, true, g.members, false)
+				} else {
+					run.do(c, true)
+				}
 			}
 			g.miniSweep(run, g.members)
 			run.emit(w, "exhaustive")
 		}
 		na := len(alpha)
 		for a := 0; a < na; a++ {
-			runWord([]int{a})
+			runWord([]int{a}, false)
 			for b := 0; b < na; b++ {
-				runWord([]int{a, b})
+				runWord([]int{a, b}, false)
 				if th {
 					for c := 0; c < na; c++ {
-						runWord([]int{a, b, c})
+						runWord([]int{a, b, c}, false)
 					}
 				}
 			}
 		}
 		extra := 500
 		if th {
-			extra = 6000
+			extra = 4000
 		}
 		for i := 0; i < extra; i++ {
 			l := 3 + g.r.Intn(4)
@@ -680,15 +704,17 @@ func main() {
 			for j := range word {
 				word[j] = g.r.Intn(na)
 			}
-			runWord(word)
+			runWord(word, true)
 		}
 	}
+
+	fullBattery = th // the exhaustive words above keep the essential battery in both tiers
 
 	// ---- 2. profiled random sequences over 4-6 members x scores -2..2, queries after every mutation ----
 	profiles := []string{"churn", "ascending", "descending", "zigzag", "rescoring", "deleting", "zeros"}
 	nrand := 20
 	if th {
-		nrand = 300
+		nrand = 150
 	}
 	for _, prof := range profiles {
 		for c := 0; c < nrand; c++ {
@@ -867,7 +893,7 @@ func main() {
 	// ---- 5b. removals aimed at the first / last / middle element, each followed by the ends battery ----
 	nfb := 40
 	if th {
-		nfb = 600
+		nfb = 300
 	}
 	for c := 0; c < nfb; c++ {
 		g := &gen{r: rng.Fork(), members: []int{0, 1, 2, 3, 4, 5}, scores: []int{-2, -1, 0, 1, 2}}
